@@ -202,7 +202,7 @@ func runC03(r *mc.Run) {
 			idv := c.Choose("idversion", 16)
 			lev := c.Choose("levels", 3)
 			memb := c.Choose("member", 5)
-			sigf := c.Choose("sigfield", 12)
+			sigf := c.Choose("sigfield", 16)
 			hdr := c.Choose("header", 14)
 			id := "menu/" + c.ID() + world.LogTag()
 			if !r.Want(id) {
@@ -349,6 +349,17 @@ func runC03(r *mc.Run) {
 					copy(sg[off:], append([]byte{0}, comp[:31]...))
 				}
 				sigJSON = `"` + hex.EncodeToString(sg) + `"`
+			case 12, 13, 14, 15:
+				// a genuine signature one of whose components starts with the hex digit 0, sent with that digit replaced by
+				// a character a tolerant number parser reads as nothing ('+', ' '): not the hex text of any signature
+				off := 32 * ((sigf - 12) % 2)
+				sg := signers[signer].key.SignRawWhere(signed, func(r, s []byte) bool {
+					c := append(append([]byte{}, r...), s...)[off : off+32]
+					return c[0] < 0x10 && c[0] != 0
+				})
+				h := []byte(hex.EncodeToString(sg))
+				h[2*off] = []byte{'+', ' '}[(sigf-12)/2]
+				sigJSON = `"` + string(h) + `"`
 			}
 			var parts []string
 			if memberJSON != "" {
